@@ -654,3 +654,80 @@ func VH_C04_offset_arc_radii() {
 }
 
 func vhNear6(a, b float64) bool { return math.Abs(a-b) <= 1e-6 }
+
+// C04 (optimizeClose, used by offset() on closed outlines): it may only move the start of a closed
+// polygon forward past a first vertex that lies on the straight line from the last vertex to the
+// second one; the traced closed polyline must stay the same.  Polygons of 3-4 vertices: the last
+// and second vertex (and the third) are concrete, the first vertex is L + t(S-L) + u N with symbolic
+// t and u (u exactly 0 or |u| >= 0.01: on the line or clearly off it), optionally after another
+// subpath.  The collinearity test stays linear that way.
+func VH_C04_optimizeclose_Q() {
+	vStub("math.Atan2", vhAtan2GP)
+	vStub("math.Hypot", vhHypotQ)
+	n := vChoose(3, 4)
+	shapes := [][3]Point{{{0, 0}, {4, 0}, {4, 3}}, {{1, 1}, {4, 5}, {-2, 6}}, {{0, 0}, {0, -3}, {5, -3}}}
+	sh := shapes[vChoose(0, len(shapes)-1)]
+	L, S, T := sh[0], sh[1], sh[2] // last vertex, second vertex, third vertex
+	d := S.Sub(L)
+	nrm := Point{-d.Y, d.X}
+	t := vNondetF64()
+	vAssume(-1 <= t && t <= 2)
+	u := 0.0
+	if vChoose(0, 1) == 1 {
+		u = vNondetF64()
+		vAssume((0.01 <= u && u <= 1) || (-1 <= u && u <= -0.01))
+	}
+	// clear of the end points (zero-length segments are not well-formed input)
+	vAssume(u != 0 || ((t <= -0.01 || t >= 0.01) && (t <= 0.99 || t >= 1.01)))
+	first := Point{L.X + t*d.X + u*nrm.X, L.Y + t*d.Y + u*nrm.Y}
+	var v []Point
+	if n == 3 {
+		v = []Point{first, S, L}
+	} else {
+		v = []Point{first, S, T, L}
+	}
+	p := &Path{}
+	pre := 0
+	if vChoose(0, 1) == 1 {
+		p.d = append(p.d, MoveToCmd, 20, 20, MoveToCmd, LineToCmd, 21, 20, LineToCmd)
+		pre = len(p.d)
+	}
+	p.d = append(p.d, MoveToCmd, v[0].X, v[0].Y, MoveToCmd)
+	for i := 1; i < n; i++ {
+		p.d = append(p.d, LineToCmd, v[i].X, v[i].Y, LineToCmd)
+	}
+	p.d = append(p.d, CloseCmd, v[0].X, v[0].Y, CloseCmd)
+	before := vhCopyData(p.d)
+	p.optimizeClose()
+	vAssert("C04.optimizeclose.earlier_subpath_untouched", len(p.d) >= pre && vhSameData(p.d[:pre], before[:pre]))
+	subs, ok := vhDecode(p.d[pre:])
+	vAssert("C04.optimizeclose.one_closed_subpath", ok && len(subs) == 1 && subs[0].closed)
+	if !ok || len(subs) != 1 {
+		return
+	}
+	// the first vertex is redundant iff it lies strictly between L and S on their line
+	redundant := u == 0 && 0 < t && t < 1
+	var got []Point
+	got = append(got, subs[0].start)
+	for _, sg := range subs[0].segs {
+		if sg.cmd != CloseCmd {
+			got = append(got, sg.end)
+		}
+	}
+	closeOK := len(subs[0].segs) > 0 && vhPtEq(subs[0].segs[len(subs[0].segs)-1].end, subs[0].start)
+	same := func(want []Point) bool {
+		if len(got) != len(want) {
+			return false
+		}
+		eq := true
+		for i := range want {
+			eq = eq && vhPtEq(got[i], want[i])
+		}
+		return eq
+	}
+	if redundant {
+		vAssert("C04.optimizeclose.same_polygon", closeOK && (same(v) || same(v[1:])))
+	} else {
+		vAssert("C04.optimizeclose.unchanged_when_first_vertex_is_a_corner", vhSameData(p.d, before))
+	}
+}
